@@ -29,4 +29,5 @@ INVARIANT AlwaysWellFormed
 INVARIANT PredicatesClosed
 INVARIANT RenameInvariant
 INVARIANT UntouchedZero
+INVARIANT BodyAgrees
 CHECK_DEADLOCK FALSE
